@@ -17,7 +17,7 @@ from vt.oblig import Obligation
 import props.c18 as c18
 
 from traits.api import (HasTraits, Int, Str, Float, List, Dict, Set, Instance, Any, Tuple, Union, Either, Property, TraitError,
-                        observe, Undefined)
+                        TraitType, observe, Undefined)
 
 LEVEL = "model_checking"
 ENCODED = [("traits/ctraits.c", ["has_traits_getattro", "getattr_trait", "default_value_for", "call_notifiers", "get_trait",
@@ -32,6 +32,21 @@ ASSUMPTIONS = ["allocation failure out of scope"]
 
 class Leaf(HasTraits):
     v = Int(0)
+
+
+class InitList(TraitType):
+    """user-defined trait type whose container default is set in the init() hook"""
+
+    def init(self):
+        self.default_value = [1]
+
+
+class PostDict(TraitType):
+    """... or after the base constructor has run"""
+
+    def __init__(self, **metadata):
+        super().__init__(**metadata)
+        self.default_value = {"p": 1}
 
 
 def mk_class():
@@ -50,6 +65,11 @@ def mk_class():
         tup_c = Tuple(Int, Str)           # constant tuple default
         tup_m = Tuple(Str, List(Int))     # tuple with a container member: must not be shared
         uni = Union(List(Int), Int)       # union whose first member has a container default
+        uni_s = Union(Set(Int), Int)
+        uni_d = Union(Dict(Str, Int), None)
+        uni_n = Union(Union(Set(Int), Str), Int)      # nested
+        cust_i = InitList()
+        cust_p = PostDict()
         over = Int(1)
         log = List(Str, transient=True)
 
@@ -81,10 +101,17 @@ def mk_class():
     return Base, Sub, counters
 
 
-NAMES = ["c_int", "c_str", "l_copy", "d_copy", "lst", "dct", "st", "inst", "dyn", "lazy", "tup_c", "tup_m", "uni", "over"]
-FRESH = {"l_copy", "d_copy", "lst", "dct", "st", "inst", "dyn", "lazy", "tup_m", "uni"}
+NAMES = ["c_int", "c_str", "l_copy", "d_copy", "lst", "dct", "st", "inst", "dyn", "lazy", "tup_c", "tup_m", "uni", "over",
+         "uni_s", "uni_d", "uni_n", "cust_i", "cust_p"]
+FRESH = {"l_copy", "d_copy", "lst", "dct", "st", "inst", "dyn", "lazy", "tup_m", "uni", "uni_s", "uni_d", "uni_n", "cust_i", "cust_p"}
 EXPECT = {"c_int": 5, "c_str": "dflt", "l_copy": [1, 2], "d_copy": {"a": 1}, "lst": [1, 2, 3], "dct": {"k": 1}, "st": {1},
-          "tup_c": (0, ""), "tup_m": ("", []), "uni": [], "over": 1, "lazy": [7, 8]}
+          "tup_c": (0, ""), "tup_m": ("", []), "uni": [], "over": 1, "lazy": [7, 8],
+          "uni_s": set(), "uni_d": {}, "uni_n": set(), "cust_i": [1], "cust_p": {"p": 1}}
+# a valid non-default value per kind (reset obligations)
+ASSIGN = {"c_int": lambda: 6, "c_str": lambda: "s", "l_copy": lambda: [9], "d_copy": lambda: {"z": 1}, "lst": lambda: [7],
+          "dct": lambda: {"q": 2}, "st": lambda: {3}, "inst": lambda: Leaf(v=3), "dyn": lambda: ["mine"], "tup_c": lambda: (1, "a"),
+          "tup_m": lambda: ("x", [1]), "uni": lambda: 3, "over": lambda: 5, "uni_s": lambda: 4, "uni_d": lambda: {"k": 1},
+          "uni_n": lambda: "s", "cust_i": lambda: [5], "cust_p": lambda: {"q": 1}}
 
 
 def mutable_parts(v):
@@ -173,6 +200,48 @@ def first_read_harness(name, sub):
     return harness
 
 
+def reset_harness(name):
+    """assign, then delete / reset_traits with handlers attached: the default the handlers are told about is the object that
+    later reads return, and it is computed once per reset"""
+    def harness(ex):
+        Base, Sub, counters = mk_class()
+        o = Base()
+        seen = []
+        o.on_trait_change(lambda obj, n_, old, new: seen.append(("otc", new)), name)
+        o.observe(lambda e: seen.append(("obs", e.new)), name)
+        read_first = ex.flag("default_read_before_assignment")
+        if read_first:
+            getattr(o, name)
+        setattr(o, name, ASSIGN[name]())
+        how = ex.choice("how", 2)
+        del seen[:]
+        c0 = counters.get("dyn", 0)
+        if how == 0:
+            delattr(o, name)
+        else:
+            o.reset_traits([name])
+        told = [v for _, v in seen]
+        now = getattr(o, name)
+        again = getattr(o, name)
+        ex.check(now is again, "reads after a reset return the same object")
+        ex.check(all(v is now for v in told), "the default handed to change handlers on a reset is the object later reads return")
+        if name in FRESH and name not in ("lazy",):
+            ex.check(len(told) >= 1, "a reset that changes the value is announced")
+        ex.check(counters.get("dyn", 0) - c0 <= 1, "a _name_default method runs at most once per reset")
+        if name == "dyn":
+            ex.check(now[0] == "dynamic", "the _name_default result is the default again")
+        elif name == "inst":
+            ex.check(type(now) is Leaf and now.v == 0, "the factory result is the default again")
+        else:
+            ex.check(now == EXPECT[name], "after a reset the declared default is back")
+        sib = Base()
+        if name in FRESH:
+            ex.check(all(a is not b for a in mutable_parts(now) for b in mutable_parts(getattr(sib, name))),
+                     "the default after a reset is not shared with a sibling")
+        return {"name": name, "how": how}
+    return harness
+
+
 OPS = ["mutate_lst", "mutate_tup_m", "mutate_uni", "otc", "observe", "add_trait_new", "add_trait_shadow", "assign", "read_all",
        "add_trait_shared_def"]
 
@@ -195,6 +264,11 @@ def isolation_harness(k):
             elif op == "mutate_uni":
                 if isinstance(actor.uni, list):
                     actor.uni.append(1)
+                actor.uni_s.add(1)
+                actor.uni_d["x"] = 1
+                actor.uni_n.add(2)
+                actor.cust_i.append(2)
+                actor.cust_p["y"] = 2
             elif op == "otc":
                 actor.on_trait_change(lambda: log["actor"].append("c_int"), "c_int")
                 actor.on_trait_change(lambda: log["actor"].append("lst_items"), "lst_items")
@@ -262,6 +336,11 @@ def obligations(tier, build):
             obs.append(Obligation("first_read/%s%s" % (name, "/subclass" if sub else ""), first_read_harness(name, sub), stubs=STUBS,
                                   bounds={"default kind": name, "handlers registered": "symbolic flag"},
                                   leverage="choice feasibility only (heap objects)"))
+    for name in NAMES:
+        if name != "lazy":
+            obs.append(Obligation("reset/%s" % name, reset_harness(name),
+                                  bounds={"default kind": name, "reset by": ["del", "reset_traits"], "default read before the assignment": "flag"},
+                                  leverage="choice feasibility only (compiled code runs concretely)"))
     K = 2 if tier == "quick" else 3
     obs.append(Obligation("isolation/k=%d" % K, isolation_harness(K), bounds={"history length": K, "operations": OPS,
                                                                            "siblings": "one created before, one after"},
